@@ -129,19 +129,55 @@ def check_modifies_args(ip, con, node, args, kwargs, qn):
             ip.frame_violation(f"call of {qn} modifies its argument `{m}`, which is not fresh in the caller")
 
 
+def apply_interface(ip, con, recv, args, kwargs):
+    """Call of an abstract method on a receiver of unknown class through its interface contract."""
+    env = {}
+    names = con.param_names
+    allargs = [recv] + list(args)
+    kwargs = dict(kwargs)
+    for i, (n, d) in enumerate(names):
+        if i < len(allargs):
+            env[n] = allargs[i]
+        elif n in kwargs:
+            env[n] = kwargs.pop(n)
+        else:
+            env[n] = C(d)
+    if kwargs or len(allargs) > len(names):
+        from .interp import PyRaise
+        raise PyRaise("TypeError", msg="argument mismatch")
+    return _apply(ip, con, env, None, None, None)
+
+
 def apply_contract(ip, con, f, args, kwargs):
     from .interp import PyRaise
     node = ip.program.node_of(f)
     env = {}
     ip.bind_params(node.args, args, kwargs, env, f.__name__)
+    return _apply(ip, con, env, f, args, kwargs)
+
+
+def _apply(ip, con, env, f, args, kwargs):
+    from .interp import PyRaise
+    node = ip.program.node_of(f) if f is not None else None
     qn = con.qualname
+    if con.variants and len(con.variants) == 1:        # ghost constants of a single-member family (the operator of a class)
+        from .contracts import Const
+        for k, sh in con.variants[0].items():
+            if k not in env and isinstance(sh, Const):
+                env[k] = ip.wrap(sh.value)
     if con.requires is not None:
         req = z3.simplify(clause_bool(ip, con.requires, env, f"{qn}#requires"))
-        if z3.is_false(req):
+        if z3.is_false(req) and f is not None:
             # the contract does not cover this call (its precondition is plainly false here): use the body instead
             return ip.call_function(f, args, kwargs, force_inline=True)
         ip.path.oblige(f"call {qn}#requires", req, kind="requires")
     # modifies: the listed objects / attributes must be writable in the caller's frame; listed attributes are havoc'd
+    for fname, sh in con.init_fields.items():
+        selfv = env[next(iter(env))]
+        if callable(sh) and not hasattr(sh, "make"):       # the attribute is an argument's object itself (identity)
+            selfv.attrs[fname] = eval_clause(ip, sh, env, f"{qn}#field[{fname}]")
+        else:
+            selfv.attrs[fname] = sh.make(ip, f"new_{fname}") if hasattr(sh, "make") else ip.wrap(sh)
     for m in (con.modifies if modifies_applies(ip, con, node, env) else ()):
         pname = m.split(".", 1)[0]
         obj = env.get(pname)
@@ -160,6 +196,8 @@ def apply_contract(ip, con, f, args, kwargs):
     from .contracts import Shape, AnyVal
     sh = con.returns if con.returns is not None else AnyVal()
     result = sh.make(ip, f"res_{qn.split(':')[-1]}") if isinstance(sh, Shape) else ip.wrap(sh)
+    for fname, pname in getattr(con, "result_aliases", {}).items():      # result.<field> is the argument object itself
+        result.attrs[fname] = env[pname]
     if con.fresh_result and isinstance(result, Z):
         from .builtins_model import FreshZ
         result = FreshZ(result.t, result.cls, True)
